@@ -364,6 +364,28 @@ def run_calls(ctx, p, sp, rng):
         with np.errstate(all='ignore'):
             getattr(pyPRISM.calculate, name)(p, **kw)
         done += 1
+        if name == 'pmf':
+            # -kT ln g with nan where g < 0 is the function's result whatever numpy error state the CALLER runs under
+            # (np.seterr(invalid='raise') is a common debugging setting): same numbers, no FloatingPointError
+            _S['on'] = False
+            try:
+                restore(p)
+                with np.errstate(all='ignore'):
+                    base = np.array(pyPRISM.calculate.pmf(p).data, copy=True)
+                restore(p)
+                ctx.hook('pmf.under_invalid_raise')
+                if np.isnan(base).any():
+                    ctx.hook('pmf.under_invalid_raise.with_negative_g')
+                try:
+                    with np.errstate(divide='ignore', over='ignore', under='ignore', invalid='raise'):
+                        strict = np.array(pyPRISM.calculate.pmf(p).data, copy=True)
+                except FloatingPointError as e:
+                    ctx.violation('calc:pmf-depends-on-callers-numpy-error-state', 'pmf raised FloatingPointError (%s) under np.errstate(invalid=\'raise\') while it returns nan for g < 0 under the default state' % e)
+                else:
+                    if not np.array_equal(base, strict, equal_nan=True):
+                        ctx.violation('calc:pmf-depends-on-callers-numpy-error-state', 'pmf returns different numbers under np.errstate(invalid=\'raise\')')
+            finally:
+                _S['on'] = True
     return done
 
 
